@@ -26,6 +26,8 @@ def cmd_targets(spec):
             r.add(rs.label(p, t["name"]))
     if spec.get("defs"):
         r.add("//defs:gen")
+        if spec.get("defs_chain"):
+            r.add("//defs:pre")
     return r
 
 
@@ -38,6 +40,8 @@ def cmd_preds(spec, lab, cmds, memo=None):
     memo[lab] = set()
     ft = rs.find_target(spec, lab)
     res = set()
+    if lab == "//defs:gen" and spec.get("defs_chain"):
+        res.add("//defs:pre")
     if ft:
         for d in rs.direct_deps(spec, ft[0], ft[1]):
             if d in cmds:
@@ -56,6 +60,8 @@ def request_closure(spec, req):
             ft = rs.find_target(spec, l)
             if ft and spec["pkgs"][ft[0]].get("use_defs") and "//defs:gen" not in labs:
                 labs.append("//defs:gen")
+        if "//defs:gen" in labs and spec.get("defs_chain") and "//defs:pre" not in labs:
+            labs.append("//defs:pre")
     return labs
 
 
@@ -67,7 +73,7 @@ def read_trace_file(path):
         return None
 
 
-def oracle_c04(spec, req, res, log, tf_events, fresh=True):
+def oracle_c04(spec, req, res, log, tf_events, fresh=True, query=False):
     """Returns list of (class, detail)."""
     v = []
     cmds = cmd_targets(spec)
@@ -100,6 +106,11 @@ def oracle_c04(spec, req, res, log, tf_events, fresh=True):
         extra = [l for l in starts if l not in set(request_closure(spec, req))]
         for l in sorted(extra):
             v.append(("ran-unrequested", "%s ran but is not in the closure of the request" % l))
+        if query:
+            # a query may build only what parsing needs: the subincluded target and its dependencies
+            for l in sorted(starts):
+                if not l.startswith("//defs:"):
+                    v.append(("query-built-target", "`plz query` ran the command of %s, which no BUILD file needs for parsing" % l))
         if tf_events is not None:
             term = {}
             for e in tf_events:
@@ -132,7 +143,7 @@ def pick_request(rng, spec):
 
 def gen_case_c04(seed, tier):
     rng = Rng(seed)
-    spec = rs.gen_repo(rng, n_targets=(4, 16), n_pkgs=(1, 4), dep_density=0.62, use_defs_p=0.35, max_fanin=12)
+    spec = rs.gen_repo(rng, n_targets=(4, 16), n_pkgs=(1, 4), dep_density=0.62, use_defs_p=0.5, max_fanin=12)
     # require/provide on some pairs
     ts = rs.all_targets(spec)
     if rng.chance(0.3) and len(ts) >= 3:
@@ -142,9 +153,14 @@ def gen_case_c04(seed, tier):
     runs = []
     for j in range(nrun):
         threads = rng.choice([1, 2, 3, 4, 8, 16])
-        args = ["build"] + req + BASE_ARGS + ["-n", str(threads)]
-        if rng.chance(0.3):
-            args.append("--keep_going")
+        if spec.get("defs") and rng.chance(0.35):
+            # a query builds only what parsing needs (subincluded targets and their dependencies); the
+            # same ordering rules apply to those builds
+            args = ["query", "deps"] + req + BASE_ARGS + ["-n", str(threads)]
+        else:
+            args = ["build"] + req + BASE_ARGS + ["-n", str(threads)]
+            if rng.chance(0.3):
+                args.append("--keep_going")
         runs.append({"args": args, "seed": subseed(seed, "run%d" % j), "policy": "", "num_stalls": 1 if rng.chance(0.25) else 0})
     return {"spec": spec, "req": req, "runs": runs}
 
@@ -211,7 +227,8 @@ def exec_case_c04(bindir, case, only_run=None):
             if os.path.exists(log):
                 os.remove(log)
             tf = sc.path("tf%d.json" % j)
-            res = run_plz(bindir, repo, run["args"] + ["--trace_file", tf], run["seed"], sc.path("home"), sc.path("trace%d" % j),
+            is_query = run["args"][0] == "query"
+            res = run_plz(bindir, repo, run["args"] + ([] if is_query else ["--trace_file", tf]), run["seed"], sc.path("home"), sc.path("trace%d" % j),
                           policy=run.get("policy", ""), choices=run.get("choices"), stalls=run.get("stalls"),
                           num_stalls=run.get("num_stalls", 0), horizon=run.get("horizon", 0))
             if res.exit == simlib.EXIT_HANG:
@@ -220,8 +237,9 @@ def exec_case_c04(bindir, case, only_run=None):
                 run2["stalls"] = res.stalls()
                 out.append(("hang", "simulated invocation did not terminate: %s" % res.sim_fail, j, run2))
                 break
-            vs = oracle_c04(espec, case["req"], res, read_log(log), read_trace_file(tf))
+            vs = oracle_c04(espec, case["req"], res, read_log(log), None if is_query else read_trace_file(tf), fresh=not is_query, query=is_query)
             st = res.stats
+            stats["query_runs"] = stats.get("query_runs", 0) + (1 if is_query else 0)
             stats["sched_steps"] += st.get("steps", 0)
             stats["sim_ms"] += st.get("sim_ms", 0)
             stats["stalls_fired"] += st.get("stalls", 0)
@@ -343,6 +361,31 @@ def inject_failure(rng, spec):
     return inj
 
 
+def add_failure_consumer(rng, spec, inj):
+    """A target that reaches the failing one only through `deps` (optionally via a filegroup), next
+    to a healthy dependency: nothing stops its command from starting except the scheduler's own
+    check that every dependency built."""
+    bad = inj["bad"][0]
+    bp, bt = rs.find_target(spec, bad)
+    gen = [(p, t) for p, t in rs.all_targets(spec) if t["kind"] == "genrule" and not t.get("fail")]
+    if not gen:
+        return
+    n = max(int(t["name"][1:]) for _, t in rs.all_targets(spec) if t["name"][1:].isdigit()) + 1
+    via = bad
+    pkg = rng.choice(sorted(spec["pkgs"]))
+    if rng.chance(0.5):
+        fg = {"name": "t%d" % n, "kind": "filegroup", "srcs": ["t:" + bad], "deps": [], "outs": [], "salt": "", "dir": None, "binary": False, "env": {}, "pass_env": [], "labels": [], "requires": [], "provides": {}}
+        spec["pkgs"][pkg]["targets"].append(fg)
+        via = rs.label(pkg, fg["name"])
+        n += 1
+    hp, ht = rng.choice(gen)
+    cons = {"name": "t%d" % n, "kind": "genrule", "srcs": [], "deps": [rs.label(hp, ht["name"]), via], "outs": ["t%d.out" % n], "salt": "c", "dir": None, "binary": False, "env": {}, "pass_env": [], "labels": [], "requires": [], "provides": {}}
+    if rng.chance(0.5):
+        cons["deps"].reverse()
+    spec["pkgs"][rng.choice(sorted(spec["pkgs"]))]["targets"].append(cons)
+    inj["consumer"] = cons["name"]
+
+
 def expected_failure(spec, req, inj):
     """True if the request's closure contains the injected failure."""
     if inj["kind"] == "none":
@@ -390,6 +433,18 @@ def parse_cycles(stderr):
     return out
 
 
+def failed_targets(stderr):
+    """Labels listed in plz's final failure report."""
+    out = []
+    lines = stderr.splitlines()
+    for i, l in enumerate(lines):
+        if "failed:" in l and ("target failed:" in l or "targets failed:" in l):
+            for m in lines[i + 1:]:
+                if m.startswith("    //"):
+                    out.append(m.strip())
+    return out
+
+
 def oracle_c05(spec, req, inj, res, log):
     v = []
     if res.exit == simlib.EXIT_HANG:
@@ -415,6 +470,13 @@ def oracle_c05(spec, req, inj, res, log):
             oks = [i for (i, st) in ends.get(d, []) if st == "ok"]
             if not oks or min(oks) > ss[0]:
                 v.append(("ran-after-failed-dep", "%s started although its dependency %s had not finished successfully (%s)" % (lab, d, ends.get(d))))
+    # For a failing command, only that target may be reported as failed: a dependant that shows up in
+    # the failure report was handed to a builder although its dependency had failed.
+    if inj["kind"] == "cmd":
+        for lab in failed_targets(res.stderr):
+            if lab not in inj["bad"]:
+                v.append(("dependant-built-after-failure", "%s is reported as failed although only %s can fail; it was handed to a builder after its dependency had failed: %s" % (lab, inj["bad"], res.stderr[-500:])))
+                break
     # the injected bad targets' dependants never start
     # reported cycles are genuine
     cycs = parse_cycles(res.stderr)
@@ -437,16 +499,20 @@ def gen_case_c05(seed, tier):
     rng = Rng(seed)
     spec = rs.gen_repo(rng, n_targets=(3, 12), n_pkgs=(1, 4), dep_density=0.55, use_defs_p=0.25, max_fanin=8, allow_dir=False)
     inj = inject_failure(rng, spec)
+    if inj["kind"] == "cmd" and rng.chance(0.7):
+        add_failure_consumer(rng, spec, inj)
     req = pick_request(rng, spec)
     if inj["kind"] != "none" and rng.chance(0.5) and inj["bad"]:
         # make sure the failure is often reachable
         req = [rng.choice(inj["bad"])] if rng.chance(0.5) else ["//..."]
+    if inj.get("consumer"):
+        req = ["//..."]
     nrun = 3 if tier == "quick" else 6
     runs = []
     for j in range(nrun):
         threads = rng.choice([1, 2, 4, 8, 16])
         args = ["build"] + req + BASE_ARGS + ["-n", str(threads)]
-        if rng.chance(0.4):
+        if rng.chance(0.7 if inj.get("consumer") else 0.4):
             args.append("--keep_going")
         runs.append({"args": args, "seed": subseed(seed, "run%d" % j), "policy": "", "num_stalls": rng.choice([0, 0, 1, 2, 3]), "horizon": 1500})
     return {"spec": spec, "req": req, "inj": inj, "runs": runs}
